@@ -5,6 +5,7 @@ from simkit.machines.edits import EditsMachine
 from simkit.machines.fit import FitMachine
 from simkit.machines.mca import McaMachine
 from simkit.machines.scans import ScansMachine
+from simkit.machines.session import SessionMachine
 from simkit.machines.simtime import SimTimeMachine
 from simkit.machines.steady import SteadyMachine
 from simkit.machines.views import ViewsMachine
@@ -16,6 +17,7 @@ REGISTRY = {
     "C10": ViewsMachine,
     "C14": SimTimeMachine,
     "C15": SteadyMachine,
+    "C17": SessionMachine,
     "C18": McaMachine,
     "C19": CrashMachine,
     "C20": FitMachine,
